@@ -5,6 +5,7 @@ solver model is executed against the implementation: same tables, same tape ⇒ 
 A lookup that misses is reported as a fault with a reserved id (`miss* + handle`), never defaulted.
 -/
 import DnaModel.Model.Solver
+import Std.Data.HashMap
 
 namespace Dna.TableSpec
 open Dna
@@ -31,15 +32,15 @@ inductive Alloc where
   | init (key : Nat × Seq × Nat) (res : Res (Nat × Derive))
 
 structure Tables where
-  attrs : List (Nat × Attr) := []
+  attrs : Std.HashMap Nat Attr := {}
   /-- values of `evaluate`, a function of (object, sequence) -/
-  evals : List ((Nat × Seq) × Eval Float) := []
+  evals : Std.HashMap (Nat × Seq) (Eval Float) := {}
   /-- exceptions raised by `evaluate`, by index of the call among all evaluations of the run -/
   evalFaults : List (Nat × Nat) := []
   /-- `localized` / `initialized_on_problem` calls in the order they happened -/
-  allocs : List Alloc := []
+  allocs : Array Alloc := #[]
   /-- heuristic calls in call order: (handle, local sequence) -> final local sequence, succeeded? -/
-  heurs : List ((Nat × Seq) × (Seq × Bool)) := []
+  heurs : Array ((Nat × Seq) × (Seq × Bool)) := #[]
 
 /-- reserved fault ids for lookups that miss or diverge from the recorded run -/
 def missEval : Nat := 100000000
@@ -50,7 +51,7 @@ def find {κ ν : Type} [BEq κ] (k : κ) : List (κ × ν) → Option ν
   | [] => none
   | (a, b) :: rest => if a == k then some b else find k rest
 
-def attrOf (t : Tables) (h : Nat) : Attr := (find h t.attrs).getD default
+def attrOf (t : Tables) (h : Nat) : Attr := (t.attrs[h]?).getD default
 
 def rhCode : Option Bool → Nat
   | none => 0
@@ -60,7 +61,7 @@ def rhCode : Option Bool → Nat
 def ops (t : Tables) : SpecOps Nat Float where
   evaluate h s k := match find k t.evalFaults with
     | some n => .error n
-    | none => match find (h, s) t.evals with
+    | none => match t.evals[(h, s)]? with
       | some e => .ok e
       | none => .error (missEval + h)
   localize h loc rh s k := match t.allocs[k]? with
